@@ -1498,8 +1498,12 @@ impl Worterbuch {
     }
 
     pub(crate) async fn apply_all_grave_goods_and_last_wills(&mut self) {
-        self.apply_grave_goods(self.grave_goods()).await;
-        self.apply_last_wills(self.last_wills()).await;
+        // read both before applying anything: grave goods like `#` also remove the registrations
+        // under $SYS/clients, and the last wills must not get lost with them
+        let grave_goods = self.grave_goods();
+        let last_wills = self.last_wills();
+        self.apply_grave_goods(grave_goods).await;
+        self.apply_last_wills(last_wills).await;
     }
 
     #[instrument(level=Level::DEBUG, skip(self))]
